@@ -324,6 +324,17 @@ pub fn c11(tier: &str, seed: u64) -> Vec<Case> {
         if r.chance(1, 4) { b[11] = 1; b.extend_from_slice(&[0, 0, 41, 2, 0, r.next() as u8, r.next() as u8, 0, 0, 0, 0]); }
         inputs.push((b, "header-word".to_string()));
     }
+    // corpus: a 65 535-byte message whose RRSIG signer name is a pointer into the record's own fixed
+    // RDATA bytes, laid out so that the decoder reads them twice (overlapping labels): 2 bytes on the
+    // wire expand to a 32-byte name and the re-encoded RDATA needs 65 542 bytes
+    {
+        let mut b = vec![0u8, 1, 0x80, 0, 0, 0, 0, 1, 0, 0, 0, 0, 0, 0, 46, 0, 1, 0, 0, 0, 0];
+        b.extend_from_slice(&65512u16.to_be_bytes());
+        b.extend_from_slice(&[14, 15, 1, 2, 3, 4, 5, 6, 7, 8, 9, 10, 11, 12, 13, 0xC0, 24, 0]);
+        b.extend_from_slice(&[0xC0, 23]);
+        b.resize(65535, 0x55);
+        inputs.insert(0, (b, "corpus-overlapping-labels".to_string()));
+    }
     for (b, tag) in inputs {
         let parsed = std::panic::catch_unwind(|| Packet::parse(&b).ok()).unwrap_or(None);
         let p = match parsed { Some(p) => p, None => { v.push(Case::new(format!("parse {}", text::hex(&b)), parse_out(&b)).tag("rejected").trivial(true)); continue; } };
@@ -335,7 +346,10 @@ pub fn c11(tier: &str, seed: u64) -> Vec<Case> {
             match bytes {
                 Some(nb) => {
                     let back = parse_out(&nb);
-                    if back != format!("ok {}", ptxt) {
+                    let expands = p.answers.iter().chain(p.name_servers.iter()).chain(p.additional_records.iter()).any(|r| simple_dns::verif::rdata_len(&r.rdata) > 65535);
+                    if back != format!("ok {}", ptxt) && expands {
+                        c = c.fail("rdata-expands-past-65535", "a name compressed on the wire expands so that the uncompressed RDATA exceeds 65535 bytes: RDLENGTH is written truncated to 16 bits and the output does not parse back".into());
+                    } else if back != format!("ok {}", ptxt) {
                         c = c.fail("reserialise-differs", format!("parse(build{}(parse(b))) != parse(b); got {}", if comp { "_compressed" } else { "" }, &back[..back.len().min(300)]));
                     }
                 }
